@@ -20,6 +20,7 @@ import (
 	"verif/harness/c08"
 	"verif/harness/c09"
 	"verif/harness/c10"
+	"verif/harness/c08dhcp"
 	"verif/harness/c08dns"
 	"verif/harness/c08ndp"
 	"verif/harness/c03dhcp"
@@ -63,10 +64,11 @@ var runners = map[string]core.Runner{
 	"C08ndp": c08ndp.Runner,
 	"C17": c17.Runner,
 	"C08dns": c08dns.Runner,
+	"C08dhcp": c08dhcp.Runner,
 }
 
 func main() {
-	c08.Sub = []core.Runner{c08dns.Runner, c08ndp.Runner, c03dhcp.Runner}
+	c08.Sub = []core.Runner{c08dns.Runner, c08ndp.Runner, c03dhcp.Runner, c08dhcp.Runner}
 	prop := flag.String("prop", "", "property id")
 	seed := flag.Int64("seed", 1, "PRNG seed")
 	tier := flag.String("tier", "quick", "quick|thorough")
